@@ -515,6 +515,13 @@ func c09EvalMove(md goldmark.Markdown, cs *c09Move) (status, locus, detail strin
 		})
 	}
 	if bytes.Equal(rt.Out, rb.Out) {
+		// the same with the moved block ending the input without a final newline (the block renders nothing, and the
+		// document before it is closed by the blank line, so nothing else may change)
+		ru := convert(md, bytes.TrimRight(bot, "\n"))
+		if ru.OK() && !bytes.Equal(rt.Out, ru.Out) {
+			locus = "definitions-end-the-input-without-newline|last-block:" + firstBlockKind(rd.Doc, true)
+			return "bad", locus, fmt.Sprintf("definitions %s\ndocument %s\nwith definitions at the END and no final newline (got) versus at the TOP (want)\n%s", q(cs.defs), q(cs.d), firstDiff(ru.Out, rt.Out)), rd.Doc, links
+		}
 		return "ok", "", "", rd.Doc, links
 	}
 	locus = "last-block:" + firstBlockKind(rd.Doc, true) + "|first-block:" + firstBlockKind(rd.Doc, false)
